@@ -504,7 +504,8 @@ class Syntax(JupyterMixin):
             yield from console.render(text, options=options.update(width=code_width))
             return
 
-        lines = text.split("\n")
+        # with a line range a blank line that ends the highlighted text is one of the selected lines
+        lines = text.split("\n", allow_blank=bool(self.line_range))
         if self.line_range:
             lines = lines[line_offset:end_line]
 
@@ -514,12 +515,16 @@ class Syntax(JupyterMixin):
                 + self._theme.get_style_for_token(Comment)
                 + Style(dim=True)
             )
+            line_count = len(lines)
             lines = (
                 Text("\n")
                 .join(lines)
                 .with_indent_guides(self.tab_size, style=style)
-                .split("\n")
+                .split("\n", allow_blank=True)
             )
+            # adding the guides loses blank lines at the end of the selection
+            while len(lines) < line_count:
+                lines.append(Text(style=style))
 
         numbers_column_width = self._numbers_column_width
         render_options = options.update(width=code_width)
